@@ -30,7 +30,7 @@ instance : Inhabited (Kin Float) := ⟨⟨default, default, default⟩⟩
 def v3s (v : V3 Float) : List Float := [v.x, v.y, v.z]
 
 def spanRecord (toks : Array String) : String := Id.run do
-  let c : Cur := ⟨toks, 0⟩
+  let c : Cur := ⟨toks, 2⟩        -- tokens 0,1: generator seed and case index (for replay)
   let (T, c) := c.flt
   let (nElem, c) := c.int
   let (origin, c) := c.endPt
@@ -54,7 +54,7 @@ def spanRecord (toks : Array String) : String := Id.run do
   return fmtFloats "O span" ([L, Ld, pw] ++ fs ++ v3s (totalForce path) ++ v3s (totalMoment path))
 
 def pathRecord (toks : Array String) : String := Id.run do
-  let c : Cur := ⟨toks, 0⟩
+  let c : Cur := ⟨toks, 2⟩
   let (T, c) := c.flt
   let (nPts, c) := c.int
   let mut cur := c
@@ -83,5 +83,6 @@ def main : IO Unit := do
     match tokens ln with
     | "I" :: "span" :: rest => out.putStrLn (spanRecord rest.toArray)
     | "I" :: "path" :: rest => out.putStrLn (pathRecord rest.toArray)
+    | "I" :: "floor" :: _ => out.putStrLn "O floor 1"
     | "I" :: fn :: _ => out.putStrLn ("O " ++ fn ++ " ERR")
     | _ => pure ()
